@@ -92,3 +92,19 @@ Proof. exact rewrite_is_prefix_replacement. Qed.
 
 Theorem C02_rewritten_path_is_never_empty : forall P R q, expected P R q <> [].
 Proof. exact result_not_empty. Qed.
+
+(* ---- TLS passthrough (specification C02/Pass.v, against which the generated stream configuration is evaluated on every run): a
+   connection is handed to a backend only for a TLSRoute that is attached to a valid TLS passthrough listener of that port, under an
+   accepted hostname (intersection of listener and Route hostnames) that admits the SNI, with a usable backend - and no name of the port
+   that admits the SNI is more specific. For all listeners, Routes, ports and SNIs. *)
+From NGF Require Import C02.Pass C02.PassProofs.
+
+Theorem C02_passthrough_only_for_attached_routes :
+  forall ls rs port sni u,
+  expected_pass ls rs port sni = PProxy u ->
+  exists l r h,
+    In l ls /\ pl_valid l = true /\ (pl_port l =? port)%Z = true /\ pl_https l = false /\
+    In r rs /\ attached_to l r = true /\ In h (accepted_hostnames (pl_host l) (pr_hosts r)) /\
+    name_serves h (lower sni) = true /\ pr_backend r = Some u /\
+    forall x, In x (port_names ls rs port) -> name_serves (fst x) (lower sni) = true -> name_rank (fst x) <= name_rank h.
+Proof. exact passthrough_only_for_attached_routes. Qed.
